@@ -288,4 +288,25 @@ PROPS = {
             "termination of invalidate_location's recursion is not proved",
         ],
     },
+    "C24": {
+        "category": "other",
+        "harness_modes": ["crosscheck"],
+        "explanation": "Fragment. The connectors join the command list with blanks and run it through `sh -c`, so agreement with the local filesystem FOR ANY PATH NAME "
+        "needs, structurally, that a path enters the command only as one quoted shell word. Proved for every path text, target text, mode and flag combination: the "
+        "command list that RemoteStreamFlowPath.exists / is_dir / is_file / is_executable / is_symlink / checksum / chmod / mkdir / read_text / rmtree / size / symlink_to / "
+        "hardlink_to hands to Connector.run (ghost log LOG.cmds) is exactly the fixed command of that operation with the path (and the link target) inserted as "
+        "shlex.quote(text) — or nothing is run here because the operation is delegated to the inner path of a wrapped location, whose own contract speaks for it; `-p` is "
+        "passed to mkdir exactly when parents or exist_ok, `-h` to chmod exactly when not follow_symlinks, `head -c n` exactly when n >= 0. On the pinned tree nine of "
+        "these obligations failed (unquoted or double-quoted paths): repaired in /repo (fix 0509690). NOT decided by proof: what the commands DO (the semantics of "
+        "test/mkdir/ln/find/sha1sum and of shlex.quote under /bin/sh), the parsing of their output (glob, walk, size, checksum), write_text's streaming, resolve, and the "
+        "local side. Those are covered by the bounded run-time comparison of random operation histories on two equal directory trees (names with blanks, quotes, `$`, "
+        "backticks, glob characters, leading dashes, unicode, tabs, backslashes; contents with trailing newlines), which also found the checksum, glob and walk defects "
+        "repaired in /repo and the three recorded findings. File names containing a newline are not generated (line-based parsing of find/printf output).",
+        "assumptions": [
+            "A-SHLEX/A-SH shlex.quote(x) is one shell word that /bin/sh expands to exactly x (validated by harness/C25.py against /bin/sh)",
+            "extern contracts: Connector.run records its command list in the ghost log; RemoteStreamFlowPath.__str__ is the path text; _get_inner_path returns some path; the operations of the inner path (StreamFlowPath.*) are assumed not to use this method's ghost log",
+            "f\"{mode:o}\" is the uninterpreted function octal(mode); str(n) of an int is uninterpreted",
+            "size(): int() of the command output may raise ValueError for non-ASCII digits (not excluded)",
+        ],
+    },
 }
